@@ -22,8 +22,27 @@ Generated specs: bool/int/str/list/even x short/long/inverse/env_var, choices on
 `type`: bool, list, str concretely; int and the custom callable `even` through the oracle instance
 `conv_ref` of the model (the harness checks on every string of every case that its Python mirror
 agrees with the real int()).
+
+The two passes over the command line (`doit <loader options> <sub-command> <options> <positional>`):
+  part main   the real DoitMain.run, in-process, with a recording task loader (TaskLoader2 with cmd_options: its
+              setup() sees the params handed to `execute`, its load_tasks() the same object after DOIT_CONFIG was
+              merged), recording sub-commands (DoitCmdBase subclasses `run`, `ca`; a plain Command `cb`), config
+              sections through extra_config, environment variables per case  <->  model `main_run`.
+              Encoding: outcome (0 executed | 3 run returned 3 | 98 an exception left run), command name, params at
+              setup, params after DOIT_CONFIG, positional.  Key numbers: o<k> -> k, base options dep_file 91, backend 92,
+              codec_cls 93, check_file_uptodate 94.
+  part pe     Command.parse_execute twice on ONE recording command object built with opt_vals  <->  `pe_scenario`.
+  part vars   DoitMain.process_args alone  <->  `process_args`.
+  part cli    `python -m doit` in a sub-process with dodo files a.py b.py x.py g.py l.py dodo.py defining different
+              tasks, DOIT_FILE, doit.cfg / pyproject.toml GLOBAL and [list] sections: which file was loaded (oracle only).
+Oracle of these parts (no doit code, no model): the value of an option is the first defined of: command line before
+the sub-command name (last occurrence there), command line after it (last occurrence), environment variable,
+DOIT_CONFIG, config section of the command, GLOBAL section, declared default; errors in any source give exit code 3.
+Regression shapes of the repairs 7ef8d1a / 16042b9 / a0cef0e: `pre-cmdline-overridden-by-doit-config`,
+`empty-argument-indexerror`, `config-error-escapes-run`.  KNOWN finding (not repaired): `pre-list-option-keyerror`
+(a list option of the loader written before the sub-command name: KeyError out of DoitMain.run).
 """
-import copy, getopt, os
+import concurrent.futures, contextlib, copy, getopt, io, os, subprocess
 import common
 from common import Outcome
 
@@ -740,14 +759,780 @@ def part_exit_code(ctx, out):
     out.extra['exit_code_runs_exercised_only'] = n
 
 
+
+# ================================================================== the two passes over the command line
+BASE_NUM = {'dep_file': 91, 'backend': 92, 'codec_cls': 93, 'check_file_uptodate': 94}
+BACKENDS = ['dbm', 'json', 'sqlite3']
+LONGS_PF = ['file', 'seek', 'alpha', 'xyz', 'opt', 'mm', 'nn', 'kk-l', 'ww', 'uu', 'jj', 'gamma']    # prefix-free, none starts with b/c/d
+LONGS_MW = ['file', 'fi', 'seek', 'se', 'alpha', 'al', 'xyz', 'xy', 'opt', 'mm', 'no-mm', 'a=', '']   # wild: prefixes of each other
+SHORTS_M = 'fkvnsmlpqrtuw'
+CMD_NAMES = ['run', 'ca', 'cb']
+
+
+def knum(k):
+    return BASE_NUM[k] if k in BASE_NUM else int(k[1:])
+
+
+def kname(n):
+    for k, v in BASE_NUM.items():
+        if v == n:
+            return k
+    return 'o%d' % n
+
+
+def base_spec():
+    """DoitCmdBase.base_options of the code under test, as a spec of the model"""
+    from doit.cmd_base import DoitCmdBase
+    out = []
+    for o in DoitCmdBase.base_options:
+        if o.get('type', str) is not str or o['name'] not in BASE_NUM or o.get('env_var') or o.get('choices'):
+            raise RuntimeError('base option %r is outside what harness/c16.py renders' % (o,))
+        out.append(dict(n=BASE_NUM[o['name']], ty='str', default=o['default'], short=o.get('short', ''), long=o.get('long', ''),
+                        inverse='', choices=[], env=0))
+    return out
+
+
+def zparams_n(items, nd):
+    out = [len(items)]
+    for k, v in items:
+        out += [knum(k), int(k in nd)] + zval(v)
+    return out
+
+
+def snap(params):
+    return [(k, copy.deepcopy(v)) for k, v in params.items()], set(getattr(params, '_non_default_keys', set()))
+
+
+def ccli(c):
+    base = clist(copt(o) for o in c['base'])
+    cmds = clist('mkcmd %s %s %s' % (cstr(cm['name']), 'true' if cm['task'] else 'false', clist(copt(o) for o in cm['spec'])) for cm in c['cmds'])
+    cfg = clist('(%s, %s)' % (cstr(sec), ckv(items)) for sec, items in c['config'])
+    return '(mkcli %s %d%%N %s %s %s %s)' % (base, BASE_NUM['backend'], clist(cstr(b) for b in BACKENDS), clist(copt(o) for o in c['lspec']), cmds, cfg)
+
+
+def main_model(c):
+    return 'main_scenario %s %s %s %s' % (ccli(c), clist('(%d%%N, %s)' % (k, cstr(v)) for k, v in c['env']), ckv(c['dodo']),
+                                         clist(cstr(a) for a in c['argv']))
+
+
+class _Dummy:
+    """stands for the dependency manager: DoitCmdBase.execute must not create a DB file"""
+    def close(self):
+        pass
+
+
+def build_main(c, rec):
+    """a DoitMain whose loader and sub-commands record what they are given"""
+    from doit.doit_cmd import DoitMain
+    from doit.cmd_base import DoitCmdBase, Command, TaskLoader2
+
+    class Loader(TaskLoader2):
+        cmd_options = tuple(opt_dict(o) for o in c['lspec'])
+
+        def setup(self, opt_values):
+            self.p = opt_values
+            rec['setup'] = snap(opt_values)
+
+        def load_doit_config(self):
+            return {kname(k): copy.deepcopy(v) for k, v in c['dodo']}
+
+        def load_tasks(self, cmd, pos_args):
+            rec.update(final=snap(self.p), pos=list(pos_args), cmd=cmd.name)
+            return []
+
+    classes = []
+    for cm in c['cmds']:
+        if cm['task']:
+            class TC(DoitCmdBase):
+                name = cm['name']
+                doc_purpose = 'recording command'
+                cmd_options = tuple(opt_dict(o) for o in cm['spec'])
+
+                def __init__(self, **kw):
+                    super().__init__(**kw)
+                    self.dep_manager = _Dummy()
+
+                def _execute(self):
+                    rec['executed'] = True
+                    return 0
+            classes.append(TC)
+        else:
+            class PC(Command):
+                name = cm['name']
+                doc_purpose = 'recording command'
+                cmd_options = tuple(opt_dict(o) for o in cm['spec'])
+
+                def execute(self, params, args):
+                    s_ = snap(params)
+                    rec.update(setup=s_, final=s_, pos=list(args), cmd=self.name, executed=True)
+                    return 0
+            classes.append(PC)
+
+    class Main(DoitMain):
+        DOIT_CMDS = tuple(classes)
+
+    config = {sec: {kname(k): copy.deepcopy(v) for k, v in items} for sec, items in c['config']}
+    return Main(task_loader=Loader(), config_filenames=(), extra_config=config)
+
+
+def run_main_impl(c, times=1):
+    """DoitMain.run on the case -> list of (encoded observation, rec) for `times` runs of ONE DoitMain object"""
+    from doit import doit_cmd
+    from doit.globals import Globals
+    from doit.action import CmdAction
+    res = []
+    saved = (Globals.dep_manager, CmdAction.STRING_FORMAT, doit_cmd._CMDLINE_VARS)
+    try:
+        rec = {}
+        with Environ(c['env']):
+            try:
+                main = build_main(c, rec)
+            except Exception:  # noqa
+                return [([98], {})] * times
+            for _ in range(times):
+                rec.clear()
+                buf = io.StringIO()
+                with contextlib.redirect_stdout(buf), contextlib.redirect_stderr(buf):
+                    try:
+                        rc = main.run(list(c['argv']))
+                    except BaseException:  # noqa
+                        rc = 98
+                if rc == 0 and rec.get('executed'):
+                    obs = [0] + zstr(rec['cmd']) + zparams_n(*rec['setup']) + zparams_n(*rec['final']) + [len(rec['pos'])]
+                    for a in rec['pos']:
+                        obs += zstr(a)
+                elif rc == 0 and not rec and c['argv'] and c['argv'][0] in ('--version', '--help'):
+                    obs = [0] + zstr(c['argv'][0]) + [0, 0, 0]
+                elif rc in (3, 98):
+                    obs = [rc]
+                else:
+                    obs = [97, rc if isinstance(rc, int) else -1]
+                res.append((obs, dict(rec, rc=rc)))
+    finally:
+        Globals.dep_manager, CmdAction.STRING_FORMAT, doit_cmd._CMDLINE_VARS = saved
+    return res
+
+
+# ------------------------------------------------------------------ generators (main)
+def gen_pool(rng, n, wild=False):
+    """n options with distinct names; well-formed: distinct one-letter shorts, prefix-free long names"""
+    shorts = rng.sample(SHORTS_M, n)
+    longs = rng.sample(LONGS_PF, n)
+    pool = []
+    for i in range(n):
+        ty = rng.choice(['bool', 'bool', 'int', 'str', 'str', 'list', 'even'])
+        choices = rng.choice([[], [], ['a', 'bc', 'x y']]) if ty == 'str' else (rng.choice([[], [], ['a', 'bc']]) if ty == 'list' else [])
+        short = shorts[i] if rng.random() < 0.8 else ''
+        long_ = longs[i] if (rng.random() < 0.8 or not short) else ''
+        inverse = ('no-' + long_) if (ty == 'bool' and long_ and rng.random() < 0.5) else ''
+        o = dict(n=i + 1, ty=ty, default=gen_default(rng, ty, choices), short=short, long=long_, inverse=inverse, choices=choices,
+                 env=(10 + i + 1) if rng.random() < 0.5 else 0)
+        if wild:
+            if rng.random() < 0.3:
+                o['long'] = rng.choice(LONGS_MW)
+            if rng.random() < 0.2:
+                o['short'] = rng.choice(['f', 'k', 'v', '', 'fk', ':', '-'])
+            if rng.random() < 0.15:
+                o['n'] = rng.randint(1, n)
+            if rng.random() < 0.15:
+                o['default'] = rng.choice([None, 'str', ['l'], 3])
+            if rng.random() < 0.2:
+                o['inverse'] = rng.choice(['no-' + o['long'], 'inv', 'alpha'])
+        pool.append(o)
+    return pool
+
+
+def clean_tok(s):
+    """a value written as a token of its own after the sub-command name must survive process_args"""
+    s = s.replace('=', 'q')
+    return s if s else 'ee'
+
+
+def gen_assign(rng, o, clean):
+    """(assignment, tokens) for option o"""
+    if o['ty'] == 'bool':
+        flagval = rng.random() < 0.6 or not o['inverse']
+        return (o['n'], flagval), render_assignment(rng, [], o, None, flagval)
+    sv = valid_string(rng, o, True)
+    if clean:
+        sv = clean_tok(sv)
+        if o['choices']:
+            sv = rng.choice(o['choices'])
+    return (o['n'], sv), render_assignment(rng, [], o, sv, None)
+
+
+def gen_main_case(rng, base, inject=None):
+    pool = gen_pool(rng, rng.randint(3, 8))
+    nl = rng.randint(1, min(3, len(pool) - 1))
+    lspec, rest = pool[:nl], pool[nl:]
+    cmds = [dict(name=nm, task=(nm != 'cb'), spec=[]) for nm in CMD_NAMES]
+    for o in rest:
+        rng.choice(cmds)['spec'].append(o)
+    mode = rng.choice(['explicit', 'explicit', 'explicit', 'implicit', 'fallback'])
+    if inject in ('pre-list', 'cfg-ill-typed', 'env-ill-typed', 'post-unknown', 'post-ill-typed'):
+        mode = 'explicit'
+    exname = rng.choice(CMD_NAMES) if mode == 'explicit' else 'run'
+    ex = next(cm for cm in cmds if cm['name'] == exname)
+    ex_opts = (lspec + ex['spec']) if ex['task'] else list(ex['spec'])
+    usable = lambda os_: [o for o in os_ if o['short'] or o['long']]
+    pre, pre_toks, post, post_toks = [], [], [], []
+    pre_cands = [o for o in usable(lspec) if o['ty'] != 'list']
+    if mode != 'fallback':
+        for _ in range(rng.choice([0, 1, 1, 2, 3])):
+            if pre_cands:
+                a, toks = gen_assign(rng, rng.choice(pre_cands), False)
+                pre.append(a)
+                pre_toks += toks
+    if mode == 'explicit':
+        for _ in range(rng.choice([0, 0, 1, 2, 3])):
+            if usable(ex_opts):
+                a, toks = gen_assign(rng, rng.choice(usable(ex_opts)), True)
+                post.append(a)
+                post_toks += toks
+    elif mode == 'fallback':
+        # implicit `run`: an option only the command knows stands among the options of the loader -> pass 1 gives up
+        own = [o for o in usable(ex['spec'])]
+        if not own:
+            mode = 'implicit'
+        else:
+            seq = [rng.choice(usable(lspec)) for _ in range(rng.randint(0, 2)) if usable(lspec)] + [rng.choice(own)]
+            seq += [rng.choice(usable(ex_opts)) for _ in range(rng.randint(0, 2))]
+            rng.shuffle(seq)
+            for o in seq:
+                a, toks = gen_assign(rng, o, True)
+                post.append(a)
+                post_toks += toks
+    pos = [rng.choice(['t1', 't2', 'x y', 't:3', 'T']) for _ in range(rng.randint(0, 2))]
+    if mode != 'explicit' and pre and not pos and rng.random() < 0.5:
+        pos = ['t1']
+    if pos and rng.random() < 0.2:
+        pos.append('-')
+    tail, nvars = [], 0
+    for p_ in pos:
+        if rng.random() < 0.15:
+            nvars += 1
+            tail.append('v%d=%s' % (nvars, rng.choice(['1', 'a=b', '', 'x y'])))
+        tail.append(p_)
+    config, env, dodo = {}, [], []
+    for o in lspec + [o for cm in cmds for o in cm['spec']]:
+        for sec in ['GLOBAL'] + CMD_NAMES:
+            if rng.random() < (0.3 if sec == 'GLOBAL' else 0.12):
+                s_ = valid_string(rng, o, False)
+                config.setdefault(sec, []).append((o['n'], s_ if rng.random() < 0.8 else ref_convert(o['ty'], s_)))
+        if o['env'] and rng.random() < 0.5:
+            env.append((o['env'], valid_string(rng, o, False)))
+        if rng.random() < 0.3:
+            dodo.append((o['n'], ref_convert(o['ty'], valid_string(rng, o, False))))
+    if rng.random() < 0.2:
+        dodo.append((40, 'extra'))
+    argv = pre_toks + ([ex['name']] if mode == 'explicit' else []) + post_toks + tail
+    if mode == 'fallback' and pre_toks:
+        raise AssertionError
+    c = dict(part='main', kind='main-wf:' + mode, base=base, lspec=lspec, cmds=cmds, config=sorted(config.items(), key=lambda kv: rng.random()),
+             env=env, dodo=dodo, argv=argv, pre=pre, post=post, pos=pos, exec=ex['name'], mode=mode)
+    if inject == 'pre-list':
+        lo = dict(n=30, ty='list', default=rng.choice([[], ['d']]), short='L', long='lst', inverse='', choices=[], env=0)
+        c['lspec'] = lspec + [lo]
+        v = rng.choice(['a', 'xy'])
+        c.update(kind='main-bad:pre-list', argv=rng.choice([['-L', v], ['--lst=' + v], ['--lst', v]]) + argv, pre_list=(30, v))
+    elif inject == 'empty-arg':
+        c.update(kind='main-bad:empty-arg', argv=argv + [''], pos=pos + [''])
+    elif inject == 'cfg-ill-typed':
+        cands = [o for o in ex_opts if invalid_string(rng, o, False) is not None]
+        if cands:
+            o = rng.choice(cands)
+            sec = rng.choice(['GLOBAL', ex['name']])
+            cfg = dict(c['config'])
+            cfg[sec] = [(k, v) for k, v in cfg.get(sec, []) if k != o['n']] + [(o['n'], invalid_string(rng, o, False))]
+            if sec == 'GLOBAL':      # the section of the command must not repair it
+                cfg[ex['name']] = [(k, v) for k, v in cfg.get(ex['name'], []) if k != o['n']]
+            c.update(kind='main-bad:cfg-ill-typed', config=list(cfg.items()), bad_task=ex['task'])
+    elif inject == 'env-ill-typed':
+        cands = [o for o in ex_opts if invalid_string(rng, o, False) is not None]
+        if cands:
+            o = rng.choice(cands)
+            if not o['env']:
+                o['env'] = 10 + o['n']
+            c.update(kind='main-bad:env-ill-typed', env=[(k, v) for k, v in env if k != o['env']] + [(o['env'], invalid_string(rng, o, False))])
+    elif inject in ('post-unknown', 'post-ill-typed'):
+        if inject == 'post-unknown':
+            bad = [rng.choice(['-Z', '--zz-unknown', '--zeta=1'])]
+        else:
+            cands = [o for o in usable(ex_opts) if o['ty'] != 'bool' and invalid_string(rng, o) is not None and
+                     not (o['ty'] == 'list' and not o['choices'])]
+            bad = None
+            if cands:
+                o = rng.choice(cands)
+                iv = invalid_string(rng, o)
+                bad = ['--%s=%s' % (o['long'], iv)] if o['long'] else (['-' + o['short'] + iv] if iv else None)
+        if bad and mode == 'explicit':
+            c.update(kind='main-bad:' + inject, argv=pre_toks + [ex['name']] + post_toks + bad + tail)
+    return c
+
+
+def gen_main_wild(rng, base):
+    pool = gen_pool(rng, rng.randint(1, 6), wild=True)
+    nl = rng.randint(0, min(3, len(pool)))
+    lspec, rest = pool[:nl], pool[nl:]
+    cmds = [dict(name=nm, task=(nm != 'cb'), spec=[]) for nm in CMD_NAMES]
+    for o in rest:
+        rng.choice(cmds)['spec'].append(o)
+        if rng.random() < 0.15:
+            rng.choice(cmds)['spec'].append(o)
+    if rng.random() < 0.05:
+        cmds = [cm for cm in cmds if cm['name'] != 'run']
+    sval = lambda: rng.choice(['1', 'yes', 'a,b', 'x', '', ' 7', 'bc', 'off', 'a', '-2', 'a=b', 'x y'])
+
+    def tok():
+        r = rng.random()
+        if pool and r < 0.55:
+            o = rng.choice(pool)
+            return rng.choice(['-' + o['short'], '-' + o['short'] + sval(), '--' + o['long'], '--' + o['long'] + '=' + sval(),
+                               '--' + o['inverse'], '--' + o['long'][:2], '-' + o['short'] + rng.choice(pool)['short'], sval()])
+        if r < 0.75:
+            return rng.choice(CMD_NAMES + ['t1', 'help'])
+        return rng.choice(['-', '--', '', '---', '-=', '--=', 'a', '1', 'x y', '-1', 'v=1', 'v=', '=v', '-v=1', 'yes', '- a', '-h', 't=u=w'])
+    argv = [tok() for _ in range(rng.randint(0, 7))]
+    if argv and argv[0] in ('--version', '--help'):
+        argv = argv[1:]
+    tval = lambda: rng.choice([None, True, False, 3, ['q'], [], sval(), sval()])
+    config = []
+    for sec in ['GLOBAL'] + CMD_NAMES:
+        if rng.random() < 0.35:
+            config.append((sec, list(dict((rng.randint(1, 7), tval()) for _ in range(rng.randint(1, 2))).items())))
+    rng.shuffle(config)
+    dodo = list(dict((rng.randint(1, 7), tval()) for _ in range(rng.choice([0, 0, 1, 2]))).items())
+    env = [(k, sval()) for k in range(11, 17) if rng.random() < 0.2]
+    return dict(part='main', kind='main-wild', base=base, lspec=lspec, cmds=cmds, config=config, env=env, dodo=dodo, argv=argv)
+
+
+# ------------------------------------------------------------------ the precedence rule, judged on the implementation alone
+def sources_of(c, k, cfg_items):
+    src = []
+    if any(k_ == k for k_, _ in c.get('pre', [])):
+        src.append('pre')
+    if any(k_ == k for k_, _ in c.get('post', [])):
+        src.append('post')
+    byenv = {o['env']: o['n'] for o in c.get('all_opts', []) if o['env']}
+    if any(byenv.get(e) == k for e, _ in c['env']):
+        src.append('env')
+    if any(k_ == k for k_, _ in c.get('dodo', [])):
+        src.append('doit-config')
+    if any(k_ == k for k_, _ in cfg_items):
+        src.append('config')
+    return src
+
+
+def expected_two_pass(opts, cfg_items, env, pre, pre_opts, post, dodo, task):
+    """(params handed to execute, params after DOIT_CONFIG, keys the command line / environment set), from the
+    written assignment alone.  cfg_items: GLOBAL entries followed by the entries of the section of the command"""
+    byn = {o['n']: o for o in opts}
+    envd = dict(env)
+    cfgd = {}
+    for k, v in cfg_items:
+        cfgd[k] = v
+    vals, fixed = {}, set()
+    for o in opts:
+        v = copy.deepcopy(o['default'])
+        if o['n'] in cfgd:
+            cv = cfgd[o['n']]
+            v = ref_convert(o['ty'], cv) if isinstance(cv, str) else cv
+        if o['env'] and o['env'] in envd:
+            v = ref_convert(o['ty'], envd[o['env']])
+            fixed.add(o['n'])
+        vals[o['n']] = v
+    for k, a in post:
+        o = byn[k]
+        if o['ty'] == 'bool':
+            vals[k] = a
+        elif o['ty'] == 'list':
+            vals[k] = vals[k] + [a]
+        else:
+            vals[k] = ref_convert(o['ty'], a)
+        fixed.add(k)
+    pren = {o['n']: o for o in pre_opts}
+    for k, a in pre:                                   # written before the sub-command name: beats everything
+        o = pren[k]
+        vals[k] = a if o['ty'] == 'bool' else ref_convert(o['ty'], a)
+        fixed.add(k)
+    setup = dict(vals)
+    final = dict(vals)
+    if task:
+        for k, v in dodo:
+            if k not in fixed:
+                final[k] = v
+    return setup, final, fixed
+
+
+def first_diff(exp, got):
+    for k in sorted(set(exp) | set(got)):
+        if k not in exp or k not in got or exp[k] != got[k]:
+            return k
+    return None
+
+
+def judge_main(c, runs, out):
+    slim = {k: c[k] for k in ('part', 'kind', 'lspec', 'cmds', 'config', 'env', 'dodo', 'argv')}
+    obs, rec = runs[0]
+    if len(runs) > 1 and runs[1][0] != obs:
+        out.violations.append(dict(what='DoitMain.run on the same command line twice (one DoitMain object) gave different results',
+                                   shape='main-run-twice', case=slim))
+    kind = c['kind']
+    if kind.startswith('main-wf'):
+        ex = next(cm for cm in c['cmds'] if cm['name'] == c['exec'])
+        opts = (c['base'] + c['lspec'] + ex['spec']) if ex['task'] else list(ex['spec'])
+        cfgd = dict(c['config'])
+        cfg_items = cfgd.get('GLOBAL', []) + cfgd.get(ex['name'], [])
+        c['all_opts'] = c['lspec'] + [o for cm in c['cmds'] for o in cm['spec']]
+        setup, final, fixed = expected_two_pass(opts, cfg_items, c['env'], c['pre'], c['lspec'], c['post'], c['dodo'], ex['task'])
+        for k in set(k_ for k_, _ in c['pre']):
+            src = sources_of(c, k, cfg_items)
+            if len(src) > 1:
+                out.count('conflict:' + '+'.join(src))
+        if obs[0] != 0:
+            out.violations.append(dict(what='a well-formed command line / environment / configuration was rejected (outcome %s): doit %s' % (obs[0], ' '.join(c['argv'])),
+                                       shape='main-wf-rejected', case=slim))
+            return
+        if rec.get('cmd') != c['exec']:
+            out.violations.append(dict(what='command %r executed, expected %r' % (rec.get('cmd'), c['exec']), shape='main-wrong-command', case=slim))
+            return
+        if rec['pos'] != c['pos']:
+            out.violations.append(dict(what='positional arguments not handed over unchanged (expected %r, got %r)' % (c['pos'], rec['pos']),
+                                       shape='main-positional', case=slim))
+        got = {knum(k): v for k, v in rec['setup'][0]}
+        k = first_diff(setup, got)
+        if k is not None:
+            src = sources_of(c, k, cfg_items)
+            out.violations.append(dict(
+                what='option %s handed to the command: expected %r, got %r; sources for it: %s (precedence: command line before the sub-command name > '
+                     'after it > environment > config > default): doit %s' % (kname(k), setup.get(k), got.get(k), src, ' '.join(c['argv'])),
+                shape='two-pass-precedence:' + '+'.join(s_ for s_ in src if s_ != 'doit-config'), case=slim))
+            return
+        gotf = {knum(k): v for k, v in rec['final'][0]}
+        k = first_diff(final, gotf)
+        if k is not None:
+            src = sources_of(c, k, cfg_items)
+            pre_only = 'pre' in src and 'post' not in src and 'env' not in src and 'doit-config' in src
+            out.violations.append(dict(
+                what='option %s after DOIT_CONFIG was merged: expected %r, got %r; sources for it: %s: doit %s' % (
+                    kname(k), final.get(k), gotf.get(k), src, ' '.join(c['argv'])),
+                shape='pre-cmdline-overridden-by-doit-config' if pre_only else 'two-pass-doit-config:' + '+'.join(src), case=slim))
+    elif kind == 'main-bad:pre-list':
+        if obs[0] != 0:
+            out.violations.append(dict(what='a list option of the loader written before the sub-command name: outcome %s (98 = an exception left DoitMain.run): doit %s' % (
+                obs[0], ' '.join(c['argv'])), shape='pre-list-option-keyerror' if obs[0] == 98 else 'list-option-before-name-rejected', case=slim))
+        else:
+            got = {knum(k): v for k, v in rec['setup'][0]}
+            k, v = c['pre_list']
+            if not (isinstance(got.get(k), list) and got[k] and got[k][-1] == v):
+                out.violations.append(dict(what='list option written before the sub-command name lost: %r' % (got.get(k),), shape='list-option-before-name-lost', case=slim))
+    elif kind == 'main-bad:empty-arg':
+        if obs[0] == 98:
+            out.violations.append(dict(what='an empty positional argument makes DoitMain.run raise (IndexError in process_args): doit %s' % ' '.join(repr(a) for a in c['argv']),
+                                       shape='empty-argument-indexerror', case=slim))
+        elif obs[0] == 0 and rec['pos'] != c['pos']:
+            out.violations.append(dict(what='positional arguments not handed over unchanged (expected %r, got %r)' % (c['pos'], rec['pos']),
+                                       shape='main-positional', case=slim))
+    elif kind.startswith('main-bad:'):
+        if obs[0] != 3:
+            sid = 'main-not-rejected:' + kind[9:]
+            if kind == 'main-bad:cfg-ill-typed' and obs[0] == 98:
+                sid = 'config-error-escapes-run'
+            out.violations.append(dict(what='%s: expected exit code 3, outcome %s (98 = an exception left DoitMain.run): doit %s' % (kind[9:], obs[0], ' '.join(c['argv'])),
+                                       shape=sid, case=slim))
+
+
+def part_main(ctx, out):
+    rng = ctx.rng
+    base = base_spec()
+    cases = []
+    kinds = ['pre-list', 'empty-arg', 'cfg-ill-typed', 'env-ill-typed', 'post-unknown', 'post-ill-typed']
+    plan = [('wf', ctx.n(150, 2000)), ('bad', ctx.n(50, 600)), ('wild', ctx.n(130, 1800))]
+    special = 0
+    for what, n in plan:
+        for i in range(n):
+            if what == 'wf':
+                c = gen_main_case(rng, base)
+                if i % 40 == 7:                      # `--version` / `--help` first: no command runs
+                    c['argv'] = [rng.choice(['--version', '--help'])] + c['argv']
+                    c['kind'] = 'main-special'
+                    special += 1
+            elif what == 'bad':
+                c = gen_main_case(rng, base, inject=kinds[i % len(kinds)])
+            else:
+                c = gen_main_wild(rng, base)
+            check_int_oracle(dict(env=c['env'], cfg=[kv for _, items in c['config'] for kv in items], argv=c['argv']), out)
+            try:
+                runs = run_main_impl(c, times=2)
+            except Exception:  # noqa
+                runs = [([98], {}), ([98], {})]
+            if c['kind'] == 'main-special':
+                if runs[0][0][0] != 0:
+                    out.violations.append(dict(what='doit %s did not return 0' % c['argv'][0], shape='main-special', case=dict(part='main', argv=c['argv'])))
+            else:
+                judge_main(c, runs, out)
+            out.count('scenario:' + c['kind'])
+            out.count('main-outcome:%s:%d' % (c['kind'].split(':')[0], runs[0][0][0]))
+            out.nontrivial.add((c['kind'], tuple(c['argv']), tuple(c['env']), repr(c['config']), repr(c['dodo']),
+                                tuple((o['ty'], o['short'], o['long']) for o in c['lspec'])))
+            desc = {k: c[k] for k in ('part', 'kind', 'lspec', 'cmds', 'config', 'env', 'dodo', 'argv')}
+            cases.append(dict(model=main_model(c), expected=runs[0][0], desc=desc))
+            if c['kind'].startswith('main-wf') and c.get('pre') and c.get('post') and sum(1 for s_ in out.samples if 'loader_options' in s_) < 2:
+                out.samples.append(dict(argv=c['argv'], loader_options=[(o['ty'], o['short'], o['long']) for o in c['lspec']], env=c['env'],
+                                        config=c['config'], doit_config=c['dodo'], observed=runs[0][0]))
+    out.extra['main_special_runs'] = special
+    return cases
+
+
+# ------------------------------------------------------------------ Command.parse_execute on one command object
+def run_pe_impl(c):
+    from doit.cmd_base import Command
+    from doit.cmdparse import CmdParseError
+
+    class Rec(Command):
+        name = 'rec'
+        cmd_options = tuple(opt_dict(o) for o in c['spec'])
+
+        @staticmethod
+        def execute(params, args):
+            return params, args
+    det = {'parses': []}
+    obs = []
+    with Environ(c['env']):
+        cmd = Rec(config={'GLOBAL': {kname(k): copy.deepcopy(v) for k, v in c['cfg']}},
+                  opt_vals={kname(k): copy.deepcopy(v) for k, v in c['ov']})
+        try:
+            p = cmd.cmdparser
+            o1 = 0
+        except CmdParseError:
+            o1 = 3
+        except Exception:  # noqa
+            o1 = 98
+        if o1 != 0:
+            # Command.cmdparser stores the parser before overwrite_defaults raises: the options reached keep their new default
+            return [o1] + zdefaults(cmd._cmdparser), det
+        obs += [o1] + zdefaults(p)
+        for _ in range(2):
+            before = zdefaults(cmd.cmdparser)
+            try:
+                params, args = cmd.parse_execute(list(c['argv']))
+                r = 0
+            except CmdParseError:
+                r, params, args = 3, None, None
+            except Exception:  # noqa
+                r, params, args = 98, None, None
+            enc = [r]
+            if r == 0:
+                enc += zparams(params) + [len(args)]
+                for a in args:
+                    enc += zstr(a)
+            after = zdefaults(cmd.cmdparser)
+            obs += enc + after
+            det['parses'].append(dict(outcome=r, enc=enc, before=before, after=after,
+                                      params=copy.deepcopy(dict(params)) if r == 0 else None, args=list(args) if r == 0 else None,
+                                      nd=set(getattr(params, '_non_default_keys', set())) if r == 0 else None))
+    return obs, det
+
+
+def gen_pe_case(rng, wild=False):
+    c = gen_wf_case(rng) if not wild else gen_wild_case(rng)
+    spec = c['spec']
+    ov = []
+    for o in spec:
+        if rng.random() < 0.4 and (wild or o['ty'] != 'list'):
+            ov.append((o['n'], ref_convert(o['ty'], valid_string(rng, o, False)) if not wild else rng.choice([True, 3, 'x', ['q'], None, 'yes', 'a,b'])))
+    if rng.random() < 0.25:
+        ov.append((8, 'other'))                    # an option of the loader that the command does not have
+    ov = list(dict(ov).items())
+    c.update(part='pe', kind='pe-wild' if wild else 'pe-wf', ov=ov, dodo=[])
+    return c
+
+
+def judge_pe(c, det, out):
+    slim = {k: c[k] for k in ('part', 'kind', 'spec', 'cfg', 'ov', 'env', 'argv')}
+    ps = det['parses']
+    if len(ps) == 2:
+        if ps[0]['enc'] != ps[1]['enc']:
+            out.violations.append(dict(what='Command.parse_execute twice on one command object gave different results', shape='parse-execute-twice', case=slim))
+        if ps[0]['before'] != ps[0]['after'] or ps[1]['before'] != ps[1]['after']:
+            out.violations.append(dict(what='Command.parse_execute changed the default of an option of the parser of the command',
+                                       shape='parse-execute-mutates-default', case=slim))
+    if c['kind'] != 'pe-wf':
+        return
+    if not ps or ps[0]['outcome'] != 0:
+        out.violations.append(dict(what='a well-formed command line / environment / configuration / opt_vals was rejected', shape='pe-wf-rejected', case=slim))
+        return
+    post = c['assigns']
+    pre_opts = [dict(n=k, ty='bool') for k, _ in c['ov']]     # opt_vals hold typed values: taken as they are
+    pre = [(k, v) for k, v in c['ov']]
+    setup, _, _ = expected_two_pass(c['spec'], c['cfg'], c['env'], [], [], post, [], False)
+    for k, v in pre:
+        setup[k] = v
+    got = {int(k[1:]): v for k, v in ps[0]['params'].items()}
+    k = first_diff(setup, got)
+    if k is not None:
+        c2 = dict(c, pre=pre, post=post, all_opts=c['spec'])
+        src = sources_of(c2, k, c['cfg'])
+        out.violations.append(dict(what='option o%s handed to execute: expected %r, got %r; sources for it: %s (opt_vals = command line before the sub-command name)' % (
+            k, setup.get(k), got.get(k), src), shape='two-pass-precedence:' + '+'.join(src), case=slim))
+    if ps[0]['args'] != c['pos']:
+        out.violations.append(dict(what='positional arguments not handed over unchanged', shape='pe-positional', case=slim))
+
+
+def part_pe(ctx, out):
+    rng = ctx.rng
+    cases = []
+    for what, n in (('wf', ctx.n(110, 1500)), ('wild', ctx.n(60, 900))):
+        for _ in range(n):
+            c = gen_pe_case(rng, wild=(what == 'wild'))
+            check_int_oracle(c, out)
+            try:
+                obs, det = run_pe_impl(c)
+            except Exception:  # noqa
+                obs, det = [98], {'parses': []}
+            if det['parses']:
+                judge_pe(c, det, out)
+            else:
+                out.count('pe:config-rejected')
+            out.count('scenario:' + c['kind'])
+            out.nontrivial.add((c['kind'], tuple(c['argv']), repr(c['ov']), tuple(c['env']), repr(c['cfg'])))
+            model = 'pe_scenario false %s %s %s %s %s' % (clist(copt(o) for o in c['spec']), ckv(c['cfg']), ckv(c['ov']),
+                                                          clist('(%d%%N, %s)' % (k, cstr(v)) for k, v in c['env']), clist(cstr(a) for a in c['argv']))
+            cases.append(dict(model=model, expected=obs, desc={k: c[k] for k in ('part', 'kind', 'spec', 'cfg', 'ov', 'env', 'argv')}))
+    return cases
+
+
+# ------------------------------------------------------------------ process_args alone
+def part_vars(ctx, out):
+    from doit import doit_cmd
+    from doit.doit_cmd import DoitMain
+    rng = ctx.rng
+    cases = []
+    saved = doit_cmd._CMDLINE_VARS
+    try:
+        for _ in range(ctx.n(60, 800)):
+            names = rng.sample(['a', 'b', 'v1', 'x y', 'T', '1'], 4)
+            toks = []
+            for _ in range(rng.randint(0, 6)):
+                r = rng.random()
+                if r < 0.3 and names:
+                    toks.append(names.pop() + '=' + rng.choice(['', '1', 'a=b', '=', 'x y', '-']))
+                elif r < 0.36:
+                    toks.append('')
+                else:
+                    toks.append(rng.choice(['-a=1', '--x=y', 't1', '-', '--', '=v', 'run', '-=', 'x y', '-f']))
+            if toks.count('=v') > 1:
+                toks = [t for t in toks if t != '=v'] + ['=v']
+            try:
+                rest = DoitMain(config_filenames=()).process_args(list(toks))
+                vs = list(doit_cmd._CMDLINE_VARS.items())
+                obs = [0, len(vs)]
+                for n_, v_ in vs:
+                    obs += zstr(n_) + zstr(v_)
+                obs += [len(rest)]
+                for a in rest:
+                    obs += zstr(a)
+            except Exception:  # noqa
+                obs = [98]
+            out.count('process_args:%s' % ('ok' if obs[0] == 0 else 'exception'))
+            if toks:
+                out.nontrivial.add(('vars', tuple(toks)))
+            cases.append(dict(model='process_args_z %s' % clist(cstr(a) for a in toks), expected=obs, desc=dict(part='vars', kind='process_args', argv=toks)))
+    finally:
+        doit_cmd._CMDLINE_VARS = saved
+    return cases
+
+
+# ------------------------------------------------------------------ the real command line, in a sub-process
+DODO_SRC = "def task_from_%s():\n    return {'actions': None}\n"
+CLI_PRE = {'none': [], 'short': ['-f', 'a.py'], 'long': ['--file=a.py'], 'twice': ['-f', 'x.py', '-fa.py']}
+CLI_POST = {'none': [], 'short': ['-f', 'b.py'], 'long': ['--file', 'b.py']}
+CLI_CFG = {
+    'none': {},
+    'ini-global': {'doit.cfg': '[GLOBAL]\ndodoFile = g.py\n'},
+    'ini-section': {'doit.cfg': '[GLOBAL]\ndodoFile = g.py\n[list]\ndodoFile = l.py\n'},
+    'toml-global': {'pyproject.toml': '[tool.doit]\ndodoFile = "g.py"\n'},
+    'toml-section': {'pyproject.toml': '[tool.doit]\ndodoFile = "g.py"\n[tool.doit.commands.list]\ndodoFile = "l.py"\n'},
+}
+
+
+def cli_expected(c):
+    if c['pre'] != 'none':
+        return 'a'
+    if c['post'] != 'none':
+        return 'b'
+    if c['env']:
+        return 'x'
+    if c['cfg'].endswith('section'):
+        return 'l'
+    if c['cfg'].endswith('global'):
+        return 'g'
+    return 'dflt'
+
+
+def run_cli_case(args):
+    d, c = args
+    os.makedirs(d, exist_ok=True)
+    for tag in ('a', 'b', 'x', 'g', 'l', 'dflt'):
+        with open(os.path.join(d, 'dodo.py' if tag == 'dflt' else tag + '.py'), 'w') as f:
+            f.write(DODO_SRC % tag)
+    for fn, txt in CLI_CFG[c['cfg']].items():
+        with open(os.path.join(d, fn), 'w') as f:
+            f.write(txt)
+    env = {k: v for k, v in common.impl_env().items() if not k.startswith('DOIT_')}
+    if c['env']:
+        env['DOIT_FILE'] = 'x.py'
+    argv = CLI_PRE[c['pre']] + ['list'] + CLI_POST[c['post']]
+    try:
+        p = subprocess.run([common.PY, '-m', 'doit'] + argv, cwd=d, env=env, stdout=subprocess.PIPE, stderr=subprocess.PIPE, text=True, timeout=120)
+        return p.returncode, p.stdout.split(), p.stderr[-300:], argv
+    except Exception as e:  # noqa
+        return 98, [], repr(e), argv
+
+
+def judge_cli(c, res, out):
+    rc, listed, err, argv = res
+    want = 'from_' + cli_expected(c)
+    if rc != 0 or listed != [want]:
+        src = [s_ for s_, on in (('pre', c['pre'] != 'none'), ('post', c['post'] != 'none'), ('env', c['env']), ('config', c['cfg'] != 'none')) if on]
+        out.violations.append(dict(
+            what='%sdoit %s (config: %s) listed %r (exit code %s), expected [%r]: precedence command line before the sub-command name > after it > '
+                 'DOIT_FILE > config section > GLOBAL > default' % ('DOIT_FILE=x.py ' if c['env'] else '', ' '.join(argv), c['cfg'], listed, rc, want),
+            shape='cli-dodo-file:' + '+'.join(src), case=dict(part='cli', **c)))
+
+
+def part_cli(ctx, out):
+    rng = ctx.rng
+    allc = [dict(pre=a, post=b, env=e, cfg=g) for a in CLI_PRE for b in CLI_POST for e in (False, True) for g in CLI_CFG]
+    if ctx.quick:
+        must = [c for c in allc if c['pre'] != 'none' and c['env'] and c['post'] == 'none' and c['cfg'] == 'none'][:2]
+        rest = [c for c in allc if c not in must]
+        allc = must + rng.sample(rest, 22)
+    root = ctx.subdir('cli')
+    jobs = [(os.path.join(root, 'c%d' % i), c) for i, c in enumerate(allc)]
+    with concurrent.futures.ThreadPoolExecutor(max_workers=min(8, common.NCPU)) as ex:
+        results = list(ex.map(run_cli_case, jobs))
+    for (d, c), res in zip(jobs, results):
+        judge_cli(c, res, out)
+        out.count('cli:%s' % ('ok' if res[0] == 0 else 'rc%s' % res[0]))
+        out.nontrivial.add(('cli', c['pre'], c['post'], c['env'], c['cfg']))
+    out.extra['cli_runs_oracle_only'] = len(jobs)
+    return len(jobs)
+
+
 def run(ctx):
     out = Outcome()
     out.rule = ('scenario cases: well-formed (spec, assignment rendered in every getopt form, env/config/DOIT_CONFIG filled), the same '
                 'with one injected error per kind, and wild ones (ill-formed specs, token soup); getopt.getopt alone on random tables; '
-                'Task.init_options.  non-trivial = distinct (kind, argv, option shapes, env, config) with a non-empty argv/env/config')
+                'Task.init_options; DoitMain.run with recording loader/commands (options of the loader before the sub-command name, config '
+                'sections, environment, DOIT_CONFIG; well-formed, one injected error, wild); Command.parse_execute with opt_vals twice on one '
+                'object; process_args; the real CLI in a sub-process (which dodo file is loaded).  non-trivial = distinct (kind, argv, option '
+                'shapes, env, config) with a non-empty argv/env/config')
     cases = part_scenarios(ctx, out) + part_getopt(ctx, out) + part_task_options(ctx, out)
+    cases += part_main(ctx, out) + part_pe(ctx, out) + part_vars(ctx, out)
     part_exit_code(ctx, out)
-    out.evaluations = len(cases) + out.extra.get('exit_code_runs_exercised_only', 0)
+    ncli = part_cli(ctx, out)
+    out.evaluations = len(cases) + out.extra.get('exit_code_runs_exercised_only', 0) + ncli
     bad = common.compare_with_model(ctx, PRE, cases)
     out.traces_validated = len(cases)
     for i, m in bad:
@@ -758,8 +1543,12 @@ def run(ctx):
         'strings are byte strings; str.lower()/str.strip() are modelled for ASCII input (non-ASCII white space / case mapping not modelled)',
         'the mapping of CmdParseError to exit code 3 by DoitMain.run is exercised by the harness, not proved',
         'option values that are not None/bool/int/str/list-of-str (floats, tuples, dicts from TOML) are outside the model',
+        'DoitMain.run is modelled up to the call of Command.execute (+ update_defaults of DoitCmdBase.execute); plugin commands/loaders named in '
+        'the configuration, get_loader without an explicit task_loader, and reading INI/TOML files into sections (exercised by part cli only) are outside the model',
+        'command line variables NAME=VALUE: the model returns them in order of occurrence; the harness generates distinct names per case',
     ]
     out.extra['trusted_base'] = ['encoding of Python values/dicts into the integer lists compared with the model (harness/c16.py zval/zparams)',
+                                 'the recording TaskLoader2 / DoitCmdBase / Command subclasses of part main and pe (harness/c16.py build_main, run_pe_impl)',
                                  'the instance conv_ref of the type-conversion oracle used for evaluation (checked against int() on every generated string)']
     return out
 
@@ -768,6 +1557,27 @@ def replay(ctx, payload):
     import json
     c = payload.get('case') or {}
     print(json.dumps(payload, indent=1, default=str)[:4000])
+    tup = lambda xs: [tuple(x) for x in xs]
+    if isinstance(c, dict) and c.get('part') == 'main' and 'lspec' in c:
+        c = dict(c, base=base_spec(), env=tup(c.get('env', [])), dodo=tup(c.get('dodo', [])),
+                 config=[(sec, tup(items)) for sec, items in c.get('config', [])])
+        for i, (obs, rec) in enumerate(run_main_impl(c, times=2)):
+            print('run %d: doit %s -> observed %s' % (i + 1, ' '.join(c['argv']), obs))
+            print('   command=%s positional=%s\n   params at execute/setup=%s\n   params after DOIT_CONFIG=%s' % (
+                rec.get('cmd'), rec.get('pos'), rec.get('setup'), rec.get('final')))
+        return 0
+    if isinstance(c, dict) and c.get('part') == 'pe':
+        c = dict(c, cfg=tup(c.get('cfg', [])), env=tup(c.get('env', [])), ov=tup(c.get('ov', [])))
+        obs, det = run_pe_impl(c)
+        print('observed now:', obs)
+        for i, p in enumerate(det['parses']):
+            print('parse_execute %d: outcome=%s params=%s args=%s' % (i + 1, p['outcome'], p['params'], p['args']))
+        return 0
+    if isinstance(c, dict) and c.get('part') == 'cli':
+        d = ctx.subdir('replay-cli')
+        cc = {k: c[k] for k in ('pre', 'post', 'env', 'cfg')}
+        print('now:', run_cli_case((d, cc)), 'expected task: from_' + cli_expected(cc))
+        return 0
     if isinstance(c, dict) and 'spec' in c and 'argv' in c:
         c = dict(c)
         c['cfg'] = [tuple(x) for x in c.get('cfg', [])]
